@@ -95,6 +95,8 @@ class Machine:
         self.zero_len = fl[F.ZERO_LEN_INPUT_SUPPORT]
         self.eof = fl[F.EOF_SUPPORT]
         self.max_steps = max_steps
+        self.overflow_log = []      # (source state, action) of out-of-space redirects in the current call
+        self._cur_source = None
         self.needs_end_check = self.zero_len or any(
             any(a.may_return_early() for a in t.actions) for s in self._reachable() for t in s.transitions)
         self.raw_sizes = {"int8_t": 1, "uint8_t": 1, "int16_t": 2, "uint16_t": 2, "int32_t": 4, "uint32_t": 4,
@@ -268,6 +270,7 @@ class Machine:
             if len(buf) == self.capacity(o):
                 cfg.state = a.end_target
                 events.append(("overflow", o.name))
+                self.overflow_log.append((self._cur_source, a))
                 raise _Redispatch()
             if isinstance(a, nmfu.AppendTo):
                 if in_start:
@@ -367,6 +370,7 @@ class Machine:
         inval = data[0]
         seen = set()
         steps = 0
+        self.overflow_log = []
         while True:
             steps += 1
             if steps > self.max_steps:
@@ -395,6 +399,7 @@ class Machine:
                 if t is None:
                     return Result(DONE if self.is_accepting(st) else OK, ptr, events, stuck=True)
             # ---- transition body
+            self._cur_source = st
             target_known = self.idx(t.target) >= 0
             if target_known:
                 cfg.state = t.target
